@@ -59,7 +59,10 @@ RULE_ADDED = (
               "uth, nested); every command once, well-formed, on the shard's platform and in bo"
               'th modes. '
               ' '
-              'Round 16: blocks and brothers that are RLP strings of 16..21 bytes. ')
+              'Round 16: blocks and brothers that are RLP strings of 16..21 bytes. '
+              ' '
+              'Round 17: key ids with elements of more digits than the interpreter converts (en'
+              'try-point baits). ')
 RULE = RULE + " " + RULE_ADDED.strip()
 ASSUMPTIONS = [
     "simulated device keeps to its protocol (firmware-like chunking, well-formed answers)",
@@ -853,6 +856,11 @@ def backtracking_baits(rng, ver):
     """(name, request) pairs"""
     path = "m/44'/0'/0'/0/0"
     runs = []
+    for n in (4300, 4301, 5000):
+        # (more digits than the interpreter converts to a number without being told)
+        runs += [("digits-only-%d" % n, "m/44'/0'/0'/0/" + "9" * n),
+                 ("zeros-only-%d" % n, "m/44'/0'/0'/0/" + "0" * n),
+                 ("digits-hardened-%d" % n, "m/" + "1" * n + "'/0'/0'/0/0")]
     for n in (40, 64, 400):
         runs += [("digits-then-letter-%d" % n, "m/44'/0'/0'/0/" + "9" * n + "h"),
                  ("digits-then-blank-%d" % n, "m/44'/0'/0'/0/" + "1" * n + " "),
